@@ -31,7 +31,14 @@ McLat ==
     /\ l' = l + 1
 \* adapted grids: 1 and x_k are integrated exactly to rounding (deviation in units of 64 eps)
 Adapt == /\ l <= TraceLen /\ Ev.e = "Adapt" /\ Ev.dev <= 4 /\ l' = l + 1
-Next == VLat \/ McLat \/ Adapt
+\* adapted channel weights (exponent, minimum weight, channels that never contributed): the lattice iteration still integrates 1 and x; the
+\* tolerance is the selector lattice's resolution (Measure.tla, SelectorCountOK) times the contribution of a channel - an alarm needs less than 1/64
+McAdapt ==
+    /\ l <= TraceLen /\ Ev.e = "McAdapt"
+    /\ Ev.tol >= 0 /\ Ev.tol <= 16384
+    /\ Near(Ev.value, 1048576, Integral(FOf(Ev.f, 1), <<RZero, <<1, 4>>, ROne>>), Ev.tol)
+    /\ l' = l + 1
+Next == VLat \/ McLat \/ Adapt \/ McAdapt
 Spec == Init /\ [][Next]_vars
 TraceAccepted == TraceAcceptedBy(TraceLen)
 =============================================================================
